@@ -31,6 +31,8 @@ func c05(c *Ctx) {
 	sQuorum(c, "R5/S-QUORUM")
 	sState(c, "R6/S-STATE")
 	c05R7(c, "R7")
+	sLockDiscipline(c, "R8/S-LOCK", "commitment")
+	sAtomicOnly(c, "R8/S-ATOMIC")
 }
 
 func c05R1(c *Ctx, rule string) {
